@@ -8,12 +8,21 @@
                        sizeof(RelMapFile) = 524
 
   PostgreSQL writes and reads exactly sizeof(RelMapFile) bytes, so a genuine file is 512 bytes long up to
-  version 15 and 524 bytes long in version 16; a reader tells the layouts apart by the file size.  The crc is the
-  CRC-32C of the bytes before it.  Unused mapping slots may hold anything (PostgreSQL leaves them zero).
+  version 15 and 524 bytes long in version 16.  The crc is the CRC-32C (`Spec.crc32c`) of the bytes before it, and
+  load_relmap_file refuses a file whose stored crc is not that (`relmapCrcOk`).  Unused mapping slots may hold anything
+  (PostgreSQL leaves them zero).
+
+  A reader that is handed an image in a buffer — possibly longer than the struct: a file read into a larger
+  buffer, a padded copy — cannot go by the length.  What it can go by is PostgreSQL's own validity check: an intact
+  file verifies at the crc offset of the layout it was written in.  The two layouts OVERLAP byte for byte (a 12–15
+  struct followed by 12 more bytes is, member by member, a 16 struct with ≤ 62 mappings: Props.C20.C20_relmap_overlap),
+  so nothing but the crc (and a count above 62) tells them apart, and an image that verifies at both offsets is
+  genuinely both (Props.C20.C20_relmap_collision).
   (The PostgreSQL 16 numbers are from the relmapper.c source as I know it; there is no PostgreSQL source or
   PostgreSQL 16 cluster in the sandbox to anchor them on.)
 -/
 import PgVerif.Basic.Bytes
+import PgVerif.Spec.Crc
 namespace PgVerif.Spec
 open PgVerif
 
@@ -77,6 +86,37 @@ instance RelMap.decWF16 (m : RelMap) : Decidable m.WF16 := by unfold RelMap.WF16
 
 theorem RelMap.WF_iff (m : RelMap) : m.WF ↔ m.WFL .v12 := Iff.rfl
 theorem RelMap.WF16_iff (m : RelMap) : m.WF16 ↔ m.WFL .v16 := Iff.rfl
+
+/-! ### the crc, and which counts fit -/
+
+/-- the bytes the crc of layout `l` covers: everything before offsetof(RelMapFile, crc) -/
+def relmapBody (l : RelMapLayout) (img : Bytes) : Bytes := img.take l.crcOffset
+
+/-- load_relmap_file's crc check on an image that holds at least sizeof(RelMapFile) bytes of layout `l`: the stored
+crc equals the CRC-32C of the bytes before it (bytes after the struct play no part) -/
+def relmapCrcOk (l : RelMapLayout) (img : Bytes) : Bool :=
+  decide (l.size ≤ img.length) && (rdAt 4 l.crcOffset img == crc32c (relmapBody l img))
+
+/-- an intact map of layout `l`: the stored crc is the one PostgreSQL computes when it writes the file -/
+def RelMap.Intact (l : RelMapLayout) (m : RelMap) : Prop := m.crc = crc32c (relmapBody l (encRelMap m))
+
+instance (l : RelMapLayout) (m : RelMap) : Decidable (m.Intact l) := by unfold RelMap.Intact; infer_instance
+
+/-- the count fits layout `l` in an image of `len` bytes: the struct fits and 0 ≤ count ≤ MAX_MAPPINGS -/
+def relmapCountFits (l : RelMapLayout) (len : Nat) (count : Int) : Prop :=
+  l.size ≤ len ∧ 0 ≤ count ∧ count ≤ (l.maxMappings : Int)
+
+instance (l : RelMapLayout) (len : Nat) (count : Int) : Decidable (relmapCountFits l len count) := by
+  unfold relmapCountFits; infer_instance
+
+/-- a possible count for an image of `len` bytes: it fits one of the layouts whose struct fits.  (0..62 from 512
+bytes on, 0..64 from 524 bytes on; anything else is an impossible count.) -/
+def relmapCountOk (len : Nat) (count : Int) : Prop := relmapCountFits .v12 len count ∨ relmapCountFits .v16 len count
+
+instance (len : Nat) (count : Int) : Decidable (relmapCountOk len count) := by unfold relmapCountOk; infer_instance
+
+example : relmapCountOk 512 62 ∧ ¬ relmapCountOk 512 63 ∧ ¬ relmapCountOk 523 63 ∧ relmapCountOk 524 64 ∧ relmapCountOk 8192 64 ∧
+    ¬ relmapCountOk 8192 65 ∧ ¬ relmapCountOk 8192 (-1) ∧ ¬ relmapCountOk 511 0 := by decide
 
 /-- lookups: first stored match or 0 -/
 def filenodeOf (ms : List (Nat × Nat)) (oid : Nat) : Nat :=
